@@ -145,8 +145,15 @@ def shard_fn(shard, nshards, seed, tier, exe, ntrees, ndoubles):
                 value = set_at(value, path, nv)
                 sh.count("trees.mutated_in_place_before_serializing")
                 break
-        cases.append((cid, [cases_b0] + pre + extra + ["S64 0", "PUT 0"]))
-        meta[cid] = ("tree", toks, value, 1 + len(pre) + len(extra), custom)
+        warm = []
+        if extra and rng.random() < 0.5:
+            # the tree (and the node about to be changed) was serialized once BEFORE the change: whatever is cached per object must not survive the mutation
+            warm = ["S 0 %d" % rng.randrange(64)]
+            if extra[0].startswith("NAV"):
+                warm = [extra[0], "S 5 %d" % rng.randrange(64)] + warm
+            sh.count("trees.serialized_once_before_the_mutation")
+        cases.append((cid, [cases_b0] + pre + warm + extra + ["S64 0", "PUT 0"]))
+        meta[cid] = ("tree", toks, value, 1 + len(pre) + len(warm) + len(extra), custom)
     # many single doubles under PLAIN and NOZERO (the trimming logic is shape dependent)
     per = ndoubles // nshards
     tg2 = TreeGen(rng, retained=False)
